@@ -257,6 +257,8 @@ static bool build_targeted(Rng &r, const Plan &plan, const Solo &solo, Schedule 
             if (!sr.nev) continue;
             int w = 1;
             if (!sr.footprint.empty() || sr.libc_static) w += 6;
+            for (int ai = 0; ai < 3; ai++)
+                if (plan.tasks[t].ops[o].a[ai] == ARENA_LO || (plan.tasks[t].ops[o].a[ai] > ARENA_HI - 600 && plan.tasks[t].ops[o].a[ai] < ARENA_HI)) w += 4;
             // another task runs the same function / family: a shared object would be shared with it
             for (size_t t2 = 0; t2 < plan.tasks.size(); t2++)
                 if (t2 != t)
@@ -307,6 +309,7 @@ static bool build_targeted(Rng &r, const Plan &plan, const Solo &solo, Schedule 
 
 // ------------------------------------------------------------------ batch
 struct C12Stats {
+    uint64_t adjacent_plans = 0;
     uint64_t plans = 0, sched_exec = 0, events = 0, switches = 0, inner_switches = 0, ops = 0;
     uint64_t strat[4] = {0, 0, 0, 0};
     uint64_t fam_ops[FAM_NFAM] = {0};
@@ -354,7 +357,7 @@ static std::string plan_json(const Plan &p, const Schedule *s) {
 static void flush_stats(C12Stats &st, const Args &a) {
     std::string s = "{";
     auto add = [&](const char *k, uint64_t v) { s += (s.size() > 1 ? "," : "") + std::string("\"") + k + "\":" + std::to_string(v); };
-    add("plans", st.plans); add("sched_exec", st.sched_exec); add("events", st.events); add("switches", st.switches);
+    add("adjacent_plans", st.adjacent_plans); add("plans", st.plans); add("sched_exec", st.sched_exec); add("events", st.events); add("switches", st.switches);
     add("inner_switches", st.inner_switches); add("ops", st.ops); add("unstable", st.unstable); add("nondeterministic", st.nondeterministic);
     add("det_checked", st.det_checked); add("footprint_ops", st.footprint_ops); add("mismatches", st.mismatches);
     add("faults_alloc", st.faults_alloc); add("faults_wr", st.faults_wr); add("faults_rd", st.faults_rd);
@@ -416,6 +419,18 @@ int c12_batch(const Args &a) {
         for (int k = 0; k < nf; k++) g.fams.push_back(cr.below(FAM_NFAM));
         g.faults = cr.chance(1, 2) && !getenv("VERIF_NOFAULTS");
         g.violations = cr.chance(3, 4);
+        if (cr.chance(1, 10)) {
+            // adjacent-data plan: few short calls of the writing families on buffers that share a word across tasks
+            g.adjacent = true;
+            g.ntasks = 2;
+            g.max_ops = 1 + cr.below(2);
+            g.faults = false;
+            g.fams.clear();
+            static const int wf[] = {FAM_INPLACE, FAM_COPY, FAM_NCOPY, FAM_FILL};
+            int nfa = 1 + cr.below(2);
+            for (int k = 0; k < nfa; k++) g.fams.push_back(wf[cr.below(4)]);
+            st.adjacent_plans++;
+        }
         Plan plan;
         gen_plan(pr_, g, plan);
         g_cur_plan = &plan;
